@@ -60,6 +60,8 @@ structure Params where
   getStrPrecompute : Nat
   setStrDc : Nat
   setStrPrecompute : Nat
+  divremHenselQr1 : Nat
+  rshDivremHenselQr1 : Nat
   deriving Repr
 
 /-- Minimum operand sizes the algorithms state for themselves (gmp-impl.h `MPN_*_MINSIZE`, regenerated from the
@@ -205,6 +207,14 @@ def Mod1Ok (p : Params) : Prop :=
 def StrOk (p : Params) : Prop :=
   1 ≤ p.getStrDc ∧ p.getStrDc ≤ p.getStrPrecompute ∧ p.getStrPrecompute ≠ never ∧ 1 ≤ p.setStrDc
 
+/-- (V15) divrem_hensel_qr_1.c:46 / rsh_divrem_hensel_qr_1.c: `BELOW_THRESHOLD(n, …_THRESHOLD)` selects the one-limb-inverse
+    loop, otherwise the two-limb-inverse routine: divrem_hensel_qr_1_2.c:37 ASSERT(n >= 2); the assembly
+    mpn_rsh_divrem_hensel_qr_1_2 of every CPU directory needs n >= 3 ("3limb minimum", k8/rsh_divrem_hensel_qr_1_2.asm:33 —
+    it faults at n = 2, found by the C14 kernel run; tune/tuneup.c:930 uses min_size = 3). -/
+def HenselOk (p : Params) : Prop :=
+  (∀ n, n < 3 → 1 ≤ n → (above n p.divremHenselQr1 = true → 2 ≤ n) ∧ (above n p.rshDivremHenselQr1 = true → 3 ≤ n))
+
+instance (p : Params) : Decidable (HenselOk p) := by unfold HenselOk; infer_instance
 instance (p : Params) : Decidable (NoOverflow p) := by unfold NoOverflow; infer_instance
 instance (m : MinSizes) (c : Cfg) (p : Params) : Decidable (MulNOk m c p) := by unfold MulNOk; infer_instance
 instance (m : MinSizes) (c : Cfg) (p : Params) : Decidable (SqrOk m c p) := by unfold SqrOk; infer_instance
@@ -219,7 +229,7 @@ instance (p : Params) : Decidable (StrOk p) := by unfold StrOk; infer_instance
 /-- The conditions, for one configuration. -/
 def ValidFor (m : MinSizes) (c : Cfg) (p : Params) : Prop :=
   NoOverflow p ∧ MulNOk m c p ∧ SqrOk m c p ∧ KaraRecOk m c p ∧ MulUnbalancedOk p ∧ MulhighOk p ∧ LowerBoundsOk p
-  ∧ RedcOk c p ∧ Mod1Ok p ∧ StrOk p
+  ∧ RedcOk c p ∧ Mod1Ok p ∧ StrOk p ∧ HenselOk p
 
 instance (m : MinSizes) (c : Cfg) (p : Params) : Decidable (ValidFor m c p) := by unfold ValidFor; infer_instance
 
